@@ -21,6 +21,8 @@ def run(tier, seed):
     # BLS signature parsing inside verification: a signature with trailing / missing bytes is not accepted
     for extra in (-1, 1, 48):
         cases.append(Case('BLS_sig_appended_%d' % extra, 'crypto', 'zzC01_appended', [extra & ((1 << 64) - 1)], opts={'setup': 'symex.setup_c:with_galg'}))
+    # unused high bits of the second G2 coordinate (p has 381 bits): flipping one in an accepted encoding must give a refusal
+    cases.append(Case('BLS_pubkey_highbits_48', 'crypto', 'zzC05_highbits', [48]))
     # aggregation of a list whose entry lengths compensate each other (the bytes of valid signatures cut elsewhere)
     for (n, c1, c2) in [(2, 47, -1), (2, 49, -1), (2, 0, -1), (2, 96, -1), (2, 48, -1), (3, 1, 49), (3, 48, 95), (3, 47, 97)]:
         cases.append(Case('BLS_agg_reframed_%d_%d_%d' % (n, c1, c2 & 0xff), 'crypto', 'zzC05_agg_reframed', [n, c1, c2 & ((1 << 64) - 1)], opts={'setup': 'symex.setup_c:with_galg'}))
